@@ -42,7 +42,7 @@ ASSUMPTIONS = [
 TIME_CAP = {"quick": 900, "thorough": 5400}
 
 BOUNDS = {
-    "quick": dict(n=4, ctx=[[1, 2]], shards=96),
+    "quick": dict(n=4, ctx=[[1, 2]], sib_levels=["lite", "lite"], shards=96),
     "thorough": c01.BOUNDS["thorough"],
 }
 
@@ -298,6 +298,12 @@ def run_shard(shard, tier):
         for idx in range(lo, hi):
             for w in wrappers:
                 _c01_case(acc, terms[idx], w, idx % 4001 == 11 and w == wrappers[0])
+    elif kind == "sib":
+        paths = c01._sib_ctxs(tier, w_fn)
+        for idx in range(lo, hi):
+            path, level = paths[idx]
+            for si, st in enumerate(c01._sib_terms(level)):
+                _c01_case(acc, c01._plug(path, st), wrappers[0], idx % 17 == 3 and si % 211 == 7)
     else:
         ctxs = c01._ctx_space(tier, w_fn)
         for idx in range(lo, hi):
